@@ -109,6 +109,14 @@ let () =
         let ((((((st, e'), tr), before), after), cnb), cna) = run_opt (vars_of vs) (fns_of fs) (expr e) in
         let sst = match st with OOk -> "ok" | OErr x -> show_err x | OOutOfFuel -> "OUT-OF-FUEL" in
         Printf.printf "%s S=%s E=%s T=%s B=%s A=%s CNB=%s CNA=%s\n" id sst (show_expr e') (show_trace tr) (show_res before) (show_res after) (show_check cnb) (show_check cna)
+    | L (A (("script" | "script0") as kd) :: A id :: cs) ->
+        let off = nat_of_int (if kd = "script" then 1 else 0) in
+        let marked = function Er (NativeFunctionError (n, _)) -> n = unmodelled_mark | _ -> false in
+        (match run_script off [] (cp_list cs) with
+         | SNoCompile (CScanErr e) -> Printf.printf "%s R=nocompile:%s\n" id (show_serr e)
+         | SNoCompile (CParseErr e) -> Printf.printf "%s R=nocompile:%s\n" id (show_perr e)
+         | SNoCompile (COk _) -> failwith "script"
+         | SRan (r, _, a) -> if marked r || marked a then Printf.printf "%s UNMODELLED(builtin)\n" id else Printf.printf "%s R=%s A=%s\n" id (show_res r) (show_res a))
     | L (A "text" :: A id :: cs) ->
         (match compile0 (cp_list cs) with
          | COk e -> Printf.printf "%s R=ok:%s\n" id (show_expr e)
